@@ -35,6 +35,12 @@ enum TimeFormat {
     Strftime(String),
 }
 
+fn to_local_datetime(time: SystemTime) -> Result<DateTime<Local>, Box<dyn Error>> {
+    super::time::to_utc_datetime(time)
+        .map(|utc| utc.with_timezone(&Local))
+        .ok_or_else(|| "timestamp out of range".into())
+}
+
 impl TimeFormat {
     fn apply(&self, time: SystemTime) -> Result<Cow<'static, str>, Box<dyn Error>> {
         let formatted = match self {
@@ -45,16 +51,12 @@ impl TimeFormat {
             Self::Ctime => {
                 const CTIME_FORMAT: &str = "%a %b %d %H:%M:%S.%f0 %Y";
 
-                DateTime::<Local>::from(time)
-                    .format(CTIME_FORMAT)
-                    .to_string()
+                to_local_datetime(time)?.format(CTIME_FORMAT).to_string()
             }
             Self::Strftime(format) => {
                 // Handle a special case
                 let custom_format = format.replace("%+", "%Y-%m-%d+%H:%M:%S%.f0");
-                DateTime::<Local>::from(time)
-                    .format(&custom_format)
-                    .to_string()
+                to_local_datetime(time)?.format(&custom_format).to_string()
             }
         };
 
